@@ -231,6 +231,11 @@ def check_c05(tier, seed):
                     amounts.add(boundary + first + f0 + d)
             for coarse in (3_000_000, 10_000_000, 2**31, 2**40, 2**62, q + f0, q + f0 - 1, 1):
                 amounts.add(coarse)
+            # funds inside the window between what the first round needs (fee 0) and what the last one needs: a later
+            # round fails although the first succeeded, and the only admissible results are an error or a fixed point
+            for k in (0, 1, f0 // 3, f0 // 2, f0 - 1, f0, f0 + 1, f0 + 1000, 2 * f0):
+                amounts.add(q + k)
+                amounts.add(k + 1)
             for amt in sorted(x for x in amounts if x > 0):
                 split = [amt] if rng.random() < 0.7 else [amt // 2, amt - amt // 2]
                 rounds = rng.choice([3, 3, 5])
